@@ -610,7 +610,7 @@ def replay(wit):
 
 
 TECHNIQUE = 'deterministic thread scheduler on sys.monitoring LINE events (baton passing, cooperative locks), exhaustive single-preemption schedules in forked interpreters, sequential-consistency oracle'
-LEVEL_TEXT = ('Schedules with one preemption at a package line boundary (both role assignments; exhaustive for the short first-use scenarios, strided for the long ones) of twelve fixed 2-3 thread scenarios '
+LEVEL_TEXT = ('Schedules with one preemption at a package line boundary (both role assignments; exhaustive for the short first-use scenarios, strided for the long ones) of seventeen fixed 2-3 thread scenarios '
               '(first use of lazily registered types, user registrations / printer replacement / set_default_config racing with prints) and of seeded random scenarios from an operation pool are executed '
               'deterministically, each in a fresh fork with an intact deferred registry; plus "preempt anywhere, switch back at the other thread\'s call boundaries", two-preemption and random-priority schedules, '
               'and a stress sub-run with real threads and the real lock. Every call\'s result must equal that of some sequential order of the individual calls and nothing may raise or deadlock.')
